@@ -10,7 +10,7 @@ streams, both reject the same inputs).  The lexer side of C06 is Props/C06.lean.
   T1  parser_total_no_panic, parser_total_on_lexer_output, expression_parser_total
   T2  counted_depth_bounded, expression_counted_depth_bounded, elif_chain_not_counted
   T3  ast_height_bound, ast_height_unbounded (F1 as a theorem: two witness families)
-  T4  break_continue_legal, break_rule, continue_rule
+  T4  break_continue_legal, break_rule, continue_rule, parsed_ast_scoped
   T5  blocks_recorded_once, extends_rule, extends_not_first_accepted (a finding: the documented
       "first tag / not nested" rule does not hold inside a `for … else` body)
 
@@ -27,6 +27,7 @@ import TeraModel.Lemmas.TemplateParserLegal
 import TeraModel.Lemmas.TemplateParserCounted
 import TeraModel.Lemmas.AstFree
 import TeraModel.Lemmas.LexerShape
+import TeraModel.Lemmas.TemplateParserScoped
 namespace Tera.C06Parser
 open Tera Tera.Parser Tera.TParser
 
@@ -201,6 +202,16 @@ example : parse 40 [.tagStart false, .ident "for", .ident "x", .ident "in", .ide
     .tagStart false, .ident "endfilter", .tagEnd false,
     .tagStart false, .ident "endfor", .tagEnd false] = .err :=
   err_of_verdict (by decide +kernel) (by decide +kernel)
+
+/-- **parsed_ast_scoped** (feeds C07 / C12): every accepted template satisfies the tree part of
+`Compiler.templateScoped`, the only hypothesis of the compiler theorems about the AST — no `Is` /
+`Pipe` binary node, no component call with a body inside an expression, `break` / `continue`
+only where the compiler has a loop to jump out of. -/
+theorem parsed_ast_scoped (maxDepth : Nat) (toks : List Tok) (t : Template) (s : TState)
+    (h : parse maxDepth toks = .ok t s) :
+    Compiler.nodesScoped false t.nodes = true
+    ∧ ∀ d ∈ t.componentDefinitions, Compiler.nodesScoped false d.body = true :=
+  parse_scoped maxDepth toks t s h
 
 /-! ## T5 — blocks, `extends` -/
 
